@@ -415,6 +415,31 @@ def op_contig(ctx, source, i):
     return [], 'contig:lines=%d' % len(fai.lines_of(ctx.seqs[name], ctx.records[i][2]))
 
 
+def op_contigs_kept(ctx, source, order):
+    """Deferred observation: every whole contig is fetched (largest first or last), all results are KEPT and only then
+    decoded.  A result that was right when returned must still be right after later fetches on the same object
+    (a read buffer shared between fetches shows only then)."""
+    idx = ctx.indexed(source)
+    names = list(ctx.names)
+    names.sort(key=lambda n: len(ctx.seqs[n]), reverse=(order == 'largest-first'))
+    kept = []
+    try:
+        for name in names:
+            ctx.calls += 1
+            kept.append((name, idx[name]))
+    except Exception as e:
+        return [], 'contigs-kept:raises:' + exc_name(e)      # a raising fetch is judged by the 'contig' operation
+    fails = []
+    for name, got in kept:
+        text = ''.join(_ragged_text(got)) if not isinstance(got, str) else got
+        if text != ctx.seqs[name]:
+            i = ctx.names.index(name)
+            f = _contig_features(ctx, source, i, 'IndexedFasta')
+            f['fetch_order'] = order
+            fails.append(_fail('whole-contig-changed-by-later-fetch', f, ctx.seqs[name], text))
+    return fails, 'contigs-kept:%s' % ('differs' if fails else 'ok')
+
+
 def interval_list(ctx, ivs_spec):
     if isinstance(ivs_spec, list):
         return [tuple(x) for x in ivs_spec]
@@ -599,6 +624,8 @@ def exec_op(ctx, op):
             out = op_lengths(ctx, op[1])
         elif kind == 'contig':
             out = op_contig(ctx, op[1], op[2])
+        elif kind == 'contigs-kept':
+            out = op_contigs_kept(ctx, op[1], op[2])
         elif kind == 'intervals':
             out = op_intervals(ctx, op[1], op[2], op[3])
         elif kind == 'genome':
@@ -623,6 +650,8 @@ def op_nontrivial(ctx, op, info):
         return info.get('chunks', 0) >= 2
     if kind == 'contig':
         return ctx.rec(op[2])['multi_line']
+    if kind == 'contigs-kept':
+        return ctx.n >= 2
     if kind == 'intervals':
         return any(ctx.touches_break(i, a, b) for (i, a, b) in interval_list(ctx, op[3]))
     return False
@@ -646,6 +675,9 @@ def ops_for(ctx, level):
         yield ['lengths', s]
         for i in range(ctx.n):
             yield ['contig', s, i]
+        if ctx.n >= 2:
+            yield ['contigs-kept', s, 'largest-first']
+            yield ['contigs-kept', s, 'largest-last']
         plan = [('generic', 'all'), ('string-encoded', 'all')]
         if level['rich']:
             plan += [('generic', 'all-reversed'), ('string-encoded', 'all-reversed')]
@@ -679,7 +711,7 @@ def run_file(res, spec, level, root):
             if op is None:
                 res.extra['supplied_index_ops_skipped_as_duplicate_state(.fai bytes identical to library-written)'] += 1
                 continue
-            if len(op) > 1 and op[1] in dead_sources and op[0] in ('lengths', 'contig', 'intervals'):
+            if len(op) > 1 and op[1] in dead_sources and op[0] in ('lengths', 'contig', 'contigs-kept', 'intervals'):
                 res.extra['ops_pruned_after_open_failure'] += 1
                 continue
             before = ctx.calls
@@ -845,6 +877,13 @@ name = %r
 print(idx[name].to_string(), 'expected', sequences[name])
 assert idx[name].to_string() == sequences[name]
 ''' % names[op[2]]
+    elif kind == 'contigs-kept':
+        body = '''idx = bnp.open_indexed(path)
+kept = {name: idx[name] for name in sorted(sequences, key=lambda n: len(sequences[n]), reverse=%r)}
+for name, got in kept.items():
+    print(name, got.to_string(), 'expected', sequences[name])
+    assert got.to_string() == sequences[name]
+''' % (op[2] == 'largest-first')
     elif kind == 'intervals':
         ctx_ivs = op[3]
         if isinstance(ctx_ivs, list):
